@@ -51,6 +51,7 @@ public:
     bool quiet_;
     Cls dup() const;
     const Cls cdup() const;
+    Cls &operator=(const Cls &o);    // an object assigned to stops being quiet (the wrapper's copy of a by-value result)
     int blend(Cls *other, std::string &tag) const;
 };
 Cls *make(int v);
@@ -91,10 +92,20 @@ int Cls::add(const Cls &other, Cls *third) {
     int rv = value + 10 * other.value + 100 * third->value;
     vt_begin("LibExit", "Cls::add"); vt_target("ns1::Cls::add(const Cls&,Cls*)"); vt_int(rv); vt_end(); return rv; }
 Cls::Cls() : value(0), ro(0), other(0.0), tint(RED), quiet_(true) { ncls_++; vt_live(1); }
-Cls Cls::dup() const { Cls rv; rv.value = value + 2000; return rv; }
-const Cls Cls::cdup() const { Cls rv; rv.value = value + 3000; return rv; }
+Cls &Cls::operator=(const Cls &o) { value = o.value; ro = o.ro; other = o.other; tint = o.tint; quiet_ = false; return *this; }
+Cls Cls::dup() const {
+    vt_begin("LibEnter", "Cls::dup"); vt_target("ns1::Cls::dup()"); vt_obj(this); vt_end();
+    Cls rv; rv.value = value + 2000; rv.ro = 7;
+    vt_begin("LibExit", "Cls::dup"); vt_target("ns1::Cls::dup()"); vt_int(rv.value); vt_end(); return rv; }
+const Cls Cls::cdup() const {
+    vt_begin("LibEnter", "Cls::cdup"); vt_target("ns1::Cls::cdup()"); vt_obj(this); vt_end();
+    Cls rv; rv.value = value + 3000;
+    vt_begin("LibExit", "Cls::cdup"); vt_target("ns1::Cls::cdup()"); vt_int(rv.value); vt_end(); return rv; }
 int Cls::blend(Cls *other, std::string &tag) const { other->value += 1; tag += "!"; return value + other->value; }
-const Cls fresh(int v) { Cls rv; rv.value = v; return rv; }
+const Cls fresh(int v) {
+    vt_begin("LibEnter", "fresh"); vt_target("ns1::fresh(int)"); vt_int(v); vt_end();
+    Cls rv; rv.value = v;
+    vt_begin("LibExit", "fresh"); vt_target("ns1::fresh(int)"); vt_int(rv.value); vt_end(); return rv; }
 Cls *make(int v) {
     vt_begin("LibEnter", "make"); vt_target("ns1::make(int)"); vt_int(v); vt_end();
     Cls *rv = new Cls(v);
@@ -463,7 +474,40 @@ CLS_DRIVER = r"""
       g = (int)SUB_ns1_Cls_get_tint(&c); MGET_I("tint", c, g);
       g = (int)SUB_ns1_Cls_get_tint(&d); MGET_I("tint", d, g);
     }
-    (void)e;
+    /* objects returned by value: e, then the same handle after it was released, a const result, a free function */
+    INV("SUB_ns1_Cls_dup", "ns1::Cls::dup()"); vt_obj(b.addr); vt_end();
+    SUB_ns1_Cls_dup(&b, &e);
+    RET("SUB_ns1_Cls_dup", "ns1::Cls::dup()"); vt_int(SUB_ns1_Cls_get_value(&e)); vt_end();
+    INV("SUB_ns1_Cls_get", "ns1::Cls::get()"); vt_obj(e.addr); vt_end();
+    rv = SUB_ns1_Cls_get(&e);
+    RET("SUB_ns1_Cls_get", "ns1::Cls::get()"); vt_int(rv); vt_end();
+    INV("SUB_ns1_Cls_set", "ns1::Cls::set(int)"); vt_obj(e.addr); vt_int(-40); vt_end();
+    SUB_ns1_Cls_set(&e, -40);
+    RET("SUB_ns1_Cls_set", "ns1::Cls::set(int)"); vt_end();
+    INV("SUB_ns1_Cls_get", "ns1::Cls::get()"); vt_obj(b.addr); vt_end();
+    rv = SUB_ns1_Cls_get(&b);
+    RET("SUB_ns1_Cls_get", "ns1::Cls::get()"); vt_int(rv); vt_end();
+    INV("SUB_ns1_Cls_dtor", "ns1::Cls::~Cls()"); vt_obj(e.addr); vt_end();
+    SUB_ns1_Cls_dtor(&e);
+    RET("SUB_ns1_Cls_dtor", "ns1::Cls::~Cls()"); vt_end();
+    INV("SUB_ns1_Cls_cdup", "ns1::Cls::cdup()"); vt_obj(c.addr); vt_end();
+    SUB_ns1_Cls_cdup(&c, &e);
+    RET("SUB_ns1_Cls_cdup", "ns1::Cls::cdup()"); vt_int(SUB_ns1_Cls_get_value(&e)); vt_end();
+    INV("SUB_ns1_Cls_dtor", "ns1::Cls::~Cls()"); vt_obj(e.addr); vt_end();
+    SUB_ns1_Cls_dtor(&e);
+    RET("SUB_ns1_Cls_dtor", "ns1::Cls::~Cls()"); vt_end();
+    INV("SUB_ns1_fresh", "ns1::fresh(int)"); vt_int(64); vt_end();
+    SUB_ns1_fresh(64, &e);
+    RET("SUB_ns1_fresh", "ns1::fresh(int)"); vt_int(SUB_ns1_Cls_get_value(&e)); vt_end();
+    INV("SUB_ns1_Cls_get", "ns1::Cls::get()"); vt_obj(e.addr); vt_end();
+    rv = SUB_ns1_Cls_get(&e);
+    RET("SUB_ns1_Cls_get", "ns1::Cls::get()"); vt_int(rv); vt_end();
+    INV("SUB_ns1_Cls_dtor", "ns1::Cls::~Cls()"); vt_obj(e.addr); vt_end();
+    SUB_ns1_Cls_dtor(&e);
+    RET("SUB_ns1_Cls_dtor", "ns1::Cls::~Cls()"); vt_end();
+    INV("SUB_ns1_Cls_count", "ns1::Cls::count()"); vt_end();
+    rv = SUB_ns1_Cls_count();
+    RET("SUB_ns1_Cls_count", "ns1::Cls::count()"); vt_int(rv); vt_end();
   }
 """
 
@@ -525,13 +569,19 @@ def member_trace(events, cls="Cls", out=None):
     outdir = out
     ids = {}
 
+    nid = [0]
+
     def oid(x):
-        return ids.setdefault(x, len(ids) + 1)
+        if x not in ids:
+            nid[0] += 1
+            ids[x] = nid[0]
+        return ids[x]
 
     def num(x):
         return int(x["v"])     # vt_dbl logs quarters
     out = []
     pend = {}
+    alive = set()       # addresses announced by a logged constructor and not yet destroyed
     for e in events:
         vals = [x for x in e.get("vals", []) if x["t"] != "target"]
         ev, f = e["ev"], e["f"]
@@ -539,13 +589,22 @@ def member_trace(events, cls="Cls", out=None):
             pend["ctor"] = num(vals[0])
         elif ev == "LibExit" and f == cls + "::" + cls and "ctor" in pend:
             v = pend.pop("ctor")
+            ids.pop(vals[0]["v"], None)
+            alive.add(vals[0]["v"])
             out.append({"op": "New", "o": oid(vals[0]["v"]), "m": "", "v": 0, "init": dict({"value": v, "ro": 2 * v, "alt": 4 * v + 2}, **EXTRA_INIT)})
         elif ev == "LibEnter" and f == "Derived::Derived":
             pend["dctor"] = num(vals[0])
         elif ev == "LibExit" and f == "Derived::Derived" and "dctor" in pend:
             v = pend.pop("dctor")
+            ids.pop(vals[0]["v"], None)
+            alive.add(vals[0]["v"])
             out.append({"op": "New", "o": oid(vals[0]["v"]), "m": "", "v": 0, "init": dict({"value": v, "ro": 2 * v, "alt": 4 * v + 2}, **EXTRA_INIT)})
+        elif ev == "LibEnter" and f in (cls + "::~" + cls, "Derived::~Derived", cls + "::set", cls + "::get") and vals[0]["v"] not in alive:
+            # an object no logged constructor announced (the wrapper's copy of a by-value result, possibly at the
+            # address of an object that is gone): its state is the call contract's business (CLS_SIGS), not Members'
+            pend.pop("get", None)
         elif ev == "LibEnter" and f in (cls + "::~" + cls, "Derived::~Derived"):
+            alive.discard(vals[0]["v"])
             out.append({"op": "Delete", "o": oid(vals[0]["v"]), "m": "", "v": 0})
         elif ev == "LibEnter" and f == cls + "::set":
             out.append({"op": "LSet", "o": oid(vals[0]["v"]), "m": "value", "v": num(vals[1])})
@@ -575,6 +634,11 @@ CLS_SIGS = {
     "ns1::Cls::add(const Cls&,Cls*)": {"params": [("obj", "in"), ("obj", "in")], "self": True, "result": "int"},
     "ns1::Cls::clone()": {"params": [], "self": True, "result": "obj"},
     "ns1::Cls::~Cls()": {"params": [], "self": True, "result": "none"},
+    # objects returned by value: the result is a new object the caller owns; what is compared is its state (member
+    # `value` read through the generated getter), the object itself goes on through get() and the destructor
+    "ns1::Cls::dup()": {"params": [], "self": True, "result": "int"},
+    "ns1::Cls::cdup()": {"params": [], "self": True, "result": "int"},
+    "ns1::fresh(int)": {"params": [("int", "in")], "self": False, "result": "int"},
     # a class derived from Cls (single inheritance): its own members and the inherited ones on a derived object
     "ns1::Derived::Derived(int,int)": {"params": [("int", "in"), ("int", "in")], "self": False, "result": "obj"},
     "ns1::Derived::extra()": {"params": [], "self": True, "result": "int"},
